@@ -1,11 +1,13 @@
 """C19 — hierarchical path/id cache coherence (cloudsync/hierarchical_cache.py).
 
 Correspondence: the real HierarchicalCache (over a case-sensitive and a case-insensitive MockProvider) against the
-Lean driver layer `hcache` (Model/HCache.lean): every operation sequence of length <= 2 (quick) / <= 3 over a
-reduced alphabet (thorough) plus seeded random sequences of length <= 12; after every operation the result /
+Lean driver layer `hcache` (Model/HCache.lean): every operation sequence of length <= 2 (quick) / <= 3 (thorough),
+explored with state de-duplication, plus seeded random sequences of length <= 12; after every operation the result /
 exception class, a structural dump of the node tree (keys, names, types, ids, parent links), the id map and all
-public getters over a fixed universe of paths and ids are compared, together with the coherence flag and the
-theorem's guard evaluated on both sides.
+public getters over the paths and ids the sequence can touch are compared, together with the coherence flag and the
+theorem's guard (target is not the root path, id is not the root's own id) evaluated on both sides.
+Known findings (caller misuse outside the guard) and fixed entries are replayed on the real class on every run; a fixed
+entry that fails again is a VIOLATION.
 Search oracle (only after a break): the coherence predicate evaluated on the real object after every guarded
 operation of generated sequences, plus comparison of all getters with a plain dictionary model."""
 import hashlib
@@ -48,6 +50,9 @@ def ctx():
         from cloudsync.hierarchical_cache import HierarchicalCache
         from cloudsync.providers.mock import MockProvider
         from cloudsync import DIRECTORY, FILE
+        # delete(oid=<root id>) on a cache in which another node carries the root's id recurses until Python's limit;
+        # the sequences here need a depth of a few dozen frames, so a low limit only makes that failure cheap
+        sys.setrecursionlimit(300)
         _ctx.update(HC=HierarchicalCache, prov={True: MockProvider(False, True), False: MockProvider(False, False)},
                     T={"F": FILE, "D": DIRECTORY}, TR={FILE: "F", DIRECTORY: "D"})
     return _ctx
@@ -243,21 +248,12 @@ def comps_real(cs, path):
 
 
 def insert_safe_real(cache, cs, path, oid):
-    """guard of the theorem: the target is not the root and the id being assigned is not held by an existing
-    proper ancestor (root included) of the target; evaluated through the public getter get_oid"""
-    ks = comps_real(cs, path)
-    if not ks:
+    """guard of the theorem: the target is not the root and the id being assigned is not the root's own id"""
+    if not comps_real(cs, path):
         return False
     o = real_oid(oid)
-    if not o:
-        return True
-    for k in range(len(ks)):
-        pre = "/" + "/".join(ks[:k])
-        node = cache._get_node(path=pre)
-        if node is None:
-            break
-        if node._oid == o:
-            return False
+    if o and o == cache._root._oid:
+        return False
     return True
 
 
@@ -285,10 +281,13 @@ def reset_line(cs, probe_paths):
 _SWAP = str.maketrans("aA", "Aa")
 
 
-def probe_for(ops):
-    """probe universe for an exhaustively enumerated sequence: the root, every path the sequence mentions, their
-    parents, and the a<->A case variants of those (anything else is seen by walk() and the structural dump)"""
-    out = ["/"]
+EXTRA_PROBES = ["\\a\\b/", "/b/A"]
+
+
+def probe_for(ops, extra=()):
+    """probe universe of a sequence: the root, every path the sequence mentions, their parents, and the a<->A case
+    variants of those, plus `extra` (anything else is seen by walk() and the structural dump)"""
+    out = ["/"] + list(extra)
     for op in ops:
         for x in op[1:]:
             if isinstance(x, str) and x.startswith("/"):
@@ -337,9 +336,9 @@ def rand_oid(rng, exotic, none_ok=True):
     r = rng.random()
     if none_ok and r < 0.2:
         return None
-    if not exotic or r < 0.8:
+    if not exotic or r < 0.85:
         return rng.choice([1, 2, 3])
-    if r < 0.9:
+    if r < 0.91:
         return 9
     return 0
 
@@ -398,7 +397,7 @@ def run_batch(batch):
              "incoherent_after_unguarded": 0, "len_hist": {}, "distinct": set(), "disagreements": [], "samples": []}
     for si, (cs, ops, last_only) in enumerate(batch):
         cache = new_cache(cs)
-        probe = probe_for(ops) if last_only else PROBE_PATHS
+        probe = probe_for(ops) if last_only else probe_for(ops, EXTRA_PROBES)
         lines.append(reset_line(cs, probe))
         reals.append("ok")
         owner.append((si, -1))
@@ -415,9 +414,16 @@ def run_batch(batch):
                 reals.append(res)
             else:
                 lines.append(op_line(op))
-                reals.append(real_line(cache, cs, res, safe, probe))
+                rl = real_line(cache, cs, res, safe, probe)
+                reals.append(rl)
                 stats["dumps"] += 1
             owner.append((si, oi))
+            if not quiet and " # C=F " in rl:
+                # the implementation has left the coherent states: nothing is claimed (or compared) beyond this
+                # operation; the model must have left them at the same operation or the lines differ
+                if oi < len(ops) - 1:
+                    stats["truncated"] += 1
+                break
     model = run_driver("hcache", lines) if lines else []
     dead = -1
     finals = {}
@@ -447,8 +453,6 @@ def run_batch(batch):
                     stats["incoherent_after_unguarded"] += 1
             if "C=F" in flags:
                 # the model has left the coherent states: weak references / lazy generators are no longer modelled
-                if oi < len(ops) - 1:
-                    stats["truncated"] += 1
                 dead = si
     if batch and len(model) > 1:
         stats["samples"].append({"ops": lines[:3], "model": model[1][:300]})
@@ -562,7 +566,7 @@ def run_jobs(jobs):
 class DictModel:
     """The plain dictionary the property speaks of: normalised path (tuple of components) -> (type, id or None),
     with "invalidate the subtree" semantics.  Only used under the theorem's guard (target is not the root; the id
-    being assigned is not held by an existing proper ancestor of the target)."""
+    being assigned is not the root's own id)."""
 
     def __init__(self, cs):
         self.cs = cs
@@ -592,12 +596,13 @@ class DictModel:
                 self.d[q] = ("D", None)
 
     def insert(self, ks, t, o):
-        self.ensure_parents(ks)
+        # __insert_node: evict the previous owners of the path and of the id, then make sure the parents exist
         if ks in self.d:
             self.rm(ks)
         h = self.holder(o)
         if h is not None:
             self.rm(h)
+        self.ensure_parents(ks)
         self.d[ks] = (t, o)
 
     def set_oid_existing(self, ks, o):
@@ -606,12 +611,11 @@ class DictModel:
             return
         h = self.holder(o)
         if h is not None:
-            self.rm(h)
-        if i0 is None:
+            self.rm(h)                      # may take ks away with it (previous owner is an ancestor)
+        if ks in self.d and i0 is None:
             self.d[ks] = (t0, o)
         else:
-            self.rm(ks)
-            self.d[ks] = (t0, o)
+            self.insert(ks, t0, o)          # replacement: children are lost
 
     def apply(self, op):
         k = op[0]
@@ -768,46 +772,47 @@ def oracle_search(seed, tier):
 
 # ------------------------------------------------------------------ known findings (the guard's complement), replayed
 
+# open findings: the guard's complement (caller misuse).  "still fails" = the cache is incoherent after the sequence.
 FINDINGS = {
-    # id -> (case_sensitive, ops, check(cache) -> bool "still fails")
+    "root-path-as-target": (True, [("mkdir", "/a", 1), ("create", "/", 2)]),
+    "root-id-reused": (True, [("mkdir", "/a", 1), ("create", "/a/b", 9)]),
+}
+
+# fixed entries: exact replays that must stay repaired (coherent, and the listed lookups answer as stated)
+FIXED = {
+    "rename-unnormalised-new-path": (
+        False, [("mkdir", "/a", 1), ("create", "/a/f", 2), ("rename", "/a/f", "/a/G")],
+        lambda c: c.get_path("2") is not None and c.get_oid(c.get_path("2")) == "2"),
     "insert-under-ancestor-holding-id": (
         True, [("mkdir", "/a", 1), ("mkdir", "/a/b", 2), ("create", "/a/b/a", 1)],
-        lambda c: c._oid_to_node.get("1") is not None and c.get_path("1") is None and c.get_type(oid="1") is not None),
+        lambda c: c.get_path("1") == "/a/b/a" and c.get_oid("/a/b/a") == "1" and c.get_type(oid="1") == ctx()["T"]["F"]),
     "set-oid-held-by-ancestor": (
         True, [("mkdir", "/a", 1), ("mkdir", "/a/b", None), ("setoid", "/a/b", 1, "D")],
-        lambda c: c._oid_to_node.get("1") is not None and c.get_path("1") is None and c.get_oid("/a/b") is None),
-    "root-path-as-target": (
-        True, [("mkdir", "/a", 1), ("create", "/", 2)],
-        lambda c: c.get_path("2") == "/" and c.get_oid("/") == "R" and c.get_oid("/a") is None),
-    "root-id-reused": (
-        True, [("mkdir", "/a", 1), ("create", "/a/b", 9)],
-        lambda c: c._oid_to_node.get("R") is not c._root and c.get_oid("/") == "R" and c.get_oid("/a") is None),
+        lambda c: c.get_path("1") == "/a/b" and c.get_oid("/a/b") == "1"),
 }
 
 
 def replay_finding(ident):
-    cs, ops, still = FINDINGS[ident]
+    cs, ops = FINDINGS[ident]
     cache = new_cache(cs)
     results = [apply_real(cache, op) for op in ops]
+    why = coherent_real(cache, cs)
+    return why is not None, results, why
+
+
+def replay_fixed(res, ident):
+    cs, ops, good = FIXED[ident]
+    cache = new_cache(cs)
+    results = [apply_real(cache, op) for op in ops]
+    why = coherent_real(cache, cs)
     try:
-        bad = bool(still(cache))
-    except Exception:  # noqa
-        bad = True
-    return bad, results, coherent_real(cache, cs)
-
-
-def replay_fixed_rename(res):
-    """fixed: e50ea94 — rename inserted the un-normalised new path (case-insensitive providers)"""
-    cache = new_cache(False)
-    cache.mkdir("/a", "1")
-    cache.create("/a/f", "2")
-    cache.rename("/a/f", "/a/G")
-    p = cache.get_path("2")
-    if p is None or cache.get_oid(p) != "2" or coherent_real(cache, False) is not None:
-        res.violation({"property": PID, "kind": "regression of fixed finding", "id": "rename-unnormalised-new-path",
-                       "case_sensitive": False, "ops": ["mkdir('/a','1')", "create('/a/f','2')", "rename('/a/f','/a/G')"],
-                       "failure": "get_path('2') = %r, get_oid of it = %r, coherence: %s" % (p, cache.get_oid(p) if p else None,
-                                                                                           coherent_real(cache, False))})
+        ok = why is None and bool(good(cache))
+    except Exception as e:  # noqa
+        ok, why = False, "lookup raised %s" % type(e).__name__
+    if not ok:
+        res.violation({"property": PID, "kind": "regression of fixed finding", "id": ident,
+                       "failing": {"case_sensitive": cs, "ops": [op_text(o) for o in ops], "ops_wire": [op_line(o) for o in ops],
+                                   "results": results, "failure": why or "lookups do not answer as recorded for the repaired code"}})
 
 
 def do_replay(path):
@@ -857,8 +862,11 @@ def run(res, tier, seed, proof_broken, replay):
             res.known.append("%s :: %s" % (ident, what))
         else:
             stale.append(ident)
-    if any(k.startswith("rename-unnormalised") for k in fixed) or True:
-        replay_fixed_rename(res)
+    for ident in FIXED:
+        replay_fixed(res, ident)
+    for ident in fixed:
+        if ident not in FIXED:
+            res.notes.append("fixed entry %s has no replay" % ident)
     # 3. correspondence
     fps = fingerprints(FP_SPEC)
     if tier == "quick":
